@@ -371,6 +371,32 @@ func c13Upstream(k *fw.K) {
 		k.Failf("upstream program -> %s: panic=%v err=%v", kind, pn, err)
 		return
 	}
+	late := ""
+	if k.Rng.Intn(3) == 0 {
+		// the gradients of this batch are read only after one or two LATER, unrelated batches (their own parameters, an interior
+		// prediction each) went through the same loss kind and were back-propagated: a training loop that logs gradients at the
+		// end of an epoch
+		for n := 1 + k.Rng.Intn(2); n > 0; n-- {
+			sh := []int{1 + k.Rng.Intn(3), 1 + k.Rng.Intn(3)}
+			q := ref.Prog{{Op: "leaf", Shape: sh, Data: RandT(k.Rng, sh, -1, 1).Data, Tracked: true}, {Op: "scale", In: []int{0}, F: 0.5}, {Op: "sigmoid", In: []int{1}},
+				{Op: "leaf", Shape: sh, Data: RandT(k.Rng, sh, 0.1, 0.9).Data}, {Op: kind, In: []int{2, 3}}}
+			if kind != "ce" {
+				q = ref.Prog{q[0], q[1], q[2], {Op: "flatten", In: []int{2}, Dim: 0}, {Op: "leaf", Shape: []int{sh[0] * sh[1]}, Data: q[3].Data}, {Op: kind, In: []int{3, 4}}}
+			}
+			var qerr error
+			if pn := call(func() {
+				var qs []tensor.Tensor
+				if qs, qerr = rt.Run(q); qerr == nil {
+					qerr = tensor.BackPropagate(qs[len(q)-1])
+				}
+			}); pn != nil || qerr != nil {
+				k.Failf("a later, unrelated batch through %s: panic=%v err=%v", kind, pn, qerr)
+				return
+			}
+		}
+		late = ", read after later unrelated batches were back-propagated"
+		k.Count("upstream_cases_read_after_later_batches", 1)
+	}
 	want, scale := p.GradS(vals, root, nil, ref.RuleSum)
 	for _, w := range want {
 		if w != nil && !(maxAbsAll(w) < 1e8) {
@@ -379,7 +405,7 @@ func c13Upstream(k *fw.K) {
 		}
 	}
 	ts[root-1] = nil // the target leaf: the statement says nothing about gradients with respect to targets (not differentiable at 0 and 1)
-	if msg := checkGradsScaled(ts, want, scale, fmt.Sprintf("%s over an upstream program (prediction = tensor %d)", kind, pred)); msg != "" {
+	if msg := checkGradsScaled(ts, want, scale, fmt.Sprintf("%s over an upstream program (prediction = tensor %d)%s", kind, pred, late)); msg != "" {
 		k.Failf("%s", msg)
 	}
 }
